@@ -1,12 +1,14 @@
 package wm
 
 import (
+	"encoding/binary"
 	"fmt"
 	"sort"
 	"strings"
 	"time"
 
 	"verifmc/explore/seq"
+	"verifmc/model"
 
 	"verifmc/dev"
 	"verifmc/rt"
@@ -83,6 +85,27 @@ func c11Classify(w *World, last Op, f string) seq.Outcome {
 			if all && rt.OpenFinding(id) {
 				return seq.Outcome{Verdict: seq.Known, Finding: id, Msg: f + fmt.Sprintf(" (lost nodes %x were written again with identical content by a later commit)", lost)}
 			}
+			// shared alphabet only: every lost node is the stored value node of a value that two live keys
+			// held at the same time (one of them released it, the other still needs it)
+			if bool(w.Shared) && rt.OpenFinding("C11-shared-node-collected") {
+				sharedAll := true
+				for _, h := range lost {
+					ok := false
+					for v := range w.EverShared {
+						buf := make([]byte, 8)
+						binary.BigEndian.PutUint64(buf, Weight(v))
+						if string(model.Sha3(append(buf, v...))) == h {
+							ok = true
+						}
+					}
+					if !ok {
+						sharedAll = false
+					}
+				}
+				if sharedAll {
+					return seq.Outcome{Verdict: seq.Known, Finding: "C11-shared-node-collected", Msg: f + fmt.Sprintf(" (lost nodes %x are value nodes shared by two keys)", lost)}
+				}
+			}
 			f += fmt.Sprintf(" (lost nodes: %x)", lost)
 		}
 	}
@@ -139,6 +162,8 @@ func C11(tier rt.Tier) int {
 		runs = []cfg{
 			{name: "distinct-values-3keys", keys: []int{0, 2, 5}, vals: []string{"a", "b"}, levels: []int{0, 1, 64}, gc: true, rootOp: true, depth: 6, c11: true, maxNoDup: 4},
 			{name: "4keys", keys: []int{0, 1, 2, 4}, vals: []string{"a"}, levels: []int{0, 64}, gc: true, rootOp: true, depth: 6, c11: true, maxNoDup: 4},
+			// equal values under different keys: stored value nodes (and equal subtrees) are shared between live positions
+			{name: "shared-values-3keys", shared: true, keys: []int{0, 1, 5}, vals: []string{"a", "b"}, levels: []int{0, 64}, gc: true, depth: 7, c11: true, maxNoDup: 4},
 		}
 	} else {
 		per = 8 * time.Minute
